@@ -16,11 +16,8 @@ namespace Ovld
 theorem C20_hit (cfg : Cfg) (mm : MMap) (ck : CKey Key) (e : Entry) (h : mm.st.cache ck = some e) :
     mm.resolvesAt cfg ck = false := by
   obtain ⟨c, k⟩ := ck
-  cases k with
-  | nil => exact MMap.resolvesAt_nil cfg mm c
-  | cons a k =>
-    rw [MMap.resolvesAt_cons]
-    cases c <;> simp [resolves, h]
+  rw [MMap.resolvesAt_eq]
+  cases c <;> simp [resolves, h]
 
 /-- table level: once a lookup has succeeded, the same lookup never resolves again, whatever other lookups
     happen in between -/
@@ -29,10 +26,10 @@ theorem C20_table (cfg : Cfg) (ms : List Meth) (hd : DistinctHandlers ms)
     (hok : (((MMap.fresh ms).runLookups cfg hist1).lookup cfg ck).2 = .ok e) (hist2 : List (CKey Key)) :
     ((((MMap.fresh ms).runLookups cfg hist1).lookup cfg ck).1.runLookups cfg hist2).resolvesAt cfg ck = false := by
   have ok := plan_ok cfg ms hd.ids hd.codes
-  have h1 := (MMap.runLookups_inv cfg ms _ ok hist1 _ (MMap.fresh_inv cfg ms)).1
-  have h2 := (MMap.lookup_spec cfg ms _ ok _ h1 ck).2
-  have hw := MMap.lookup_ok_warm cfg ms _ ok _ h1 ck e hok
-  exact (MMap.runLookups_inv cfg ms _ ok hist2 _ h2).2 ck hw
+  have h1 := (MMap.runLookups_inv cfg ms ok hist1 _ (MMap.fresh_inv cfg ms)).1
+  have h2 := (MMap.lookup_spec cfg ms ok _ h1 ck).2
+  have hw := MMap.lookup_ok_warm cfg ms ok _ h1 ck e hok
+  exact (MMap.runLookups_inv cfg ms ok hist2 _ h2).2 ck hw
 
 /-- function level: after a call has been handled successfully, repeating it — directly, and for every
     `recurse` / `call_next` / `f.next` lookup its methods perform — runs no resolution at all, whatever other
@@ -49,8 +46,8 @@ theorem C20_fn (cfg : Cfg) (ds : List (Def × Int)) (hd : DistinctHandlers (Fn.m
   | ok ana =>
     obtain ⟨fnA, hA, hcall⟩ := Fn.runCalls_fresh_ok cfg ds ana ok ha hist1
     rw [hcall c] at hok ⊢
-    have hB := (call_rel cfg ds ana _ ok fnA fnA hA hA c).inv1
-    have hC := runCalls_inv cfg ds ana _ ok hist2 _ hB
-    exact (call_rel cfg ds ana _ ok fnA _ hA hC.1 c).warm id hok hC.2
+    have hB := (call_rel cfg ds ana ok fnA fnA hA hA c).inv1
+    have hC := runCalls_inv cfg ds ana ok hist2 _ hB
+    exact (call_rel cfg ds ana ok fnA _ hA hC.1 c).warm id hok hC.2
 
 end Ovld
